@@ -38,6 +38,15 @@ inductive FStmt
   /-- `currentTest->failWith(.., getCurrentTestTerminatorWithoutExceptions())`: leaves by `longjmp`;
       nothing after it runs, no destructor of the frames it leaves runs -/
   | failWith
+  /-- `currentTest->addFailure(FailFailure(..))` as a statement of its own: records the failure
+      (`TestResult::addFailure` -> `TestOutput::printFailure`) and RETURNS.  `printFailure` is a callback
+      into whatever output is installed; an output may allocate through `operator new` there
+      (`JUnitTestOutput::printFailure`: `new TestFailure(failure)`) - the 'allocating callback' of
+      `Model/ThreadSafe.lean` -/
+  | addFailure
+  /-- `UtestShell::getCurrentTestTerminatorWithoutExceptions().exitCurrentTest()`: leaves by `longjmp`
+      (`failWith` = `addFailure` followed by this) -/
+  | exitCurrentTest
 deriving DecidableEq, Repr, Inhabited
 
 /-- the regenerated code of the locked wrappers -/
